@@ -244,6 +244,8 @@ def parse_operand(s):
         return ('const', s[6:].strip())
     if re.match(r'^[<A-Za-z_]', s) and '::' in s:
         return ('const', s)          # function item used as a value
+    if re.fullmatch(r'[a-z_][A-Za-z0-9_]*', s):
+        return ('const', s)          # function item of the same module
     raise MirSyntaxError("not an operand: %r" % s[:100])
 
 
@@ -498,7 +500,7 @@ class MirDump:
         i, n = 0, len(self.lines)
         while i < n:
             ln = self.lines[i]
-            m1 = re.match(r'^const ([^:]+): ([^=]+) = const (.*);$', ln)
+            m1 = re.match(r'^const (.*): ([^:=]+) = const (.*);$', ln)
             if m1:
                 self.const_literals[m1.group(1)] = (m1.group(3), m1.group(2).strip())
             if ln.startswith(('fn ', 'const ', 'static ')) and ln.endswith('{'):
